@@ -7,8 +7,9 @@ Theorem C06_paraboloid_stigmatic :
   forall Rc sg x y z0 : R,
        Rc <> 0%R ->
        sg = 1%R \/ sg = (-1)%R ->
-       k_std_distance XOps (Fin (-1)) (Fin sg) (Fin 0) (Fin 0) (Fin z0) (Fin x) (Fin y) (Fin Rc) =
-       Fin (sg * ((x * x + y * y) / (2 * Rc) - z0)) /\
+       ((0 <= sg * ((x * x + y * y) / (2 * Rc) - z0))%R ->
+        k_std_distance XOps (Fin (-1)) (Fin sg) (Fin 0) (Fin 0) (Fin z0) (Fin x) (Fin y) (Fin Rc) =
+        Fin (sg * ((x * x + y * y) / (2 * Rc) - z0))) /\
        on_vertex_sheet Rc (-1) x y ((x * x + y * y) / (2 * Rc)) /\
        (let
         '(nx, ny, nz) := k_std_normal ROps x y Rc (-1)%R in
@@ -178,6 +179,7 @@ Theorem C06_std_distance_paraboloid_axial :
   forall Rc sg x y z0 : R,
        Rc <> 0%R ->
        sg = 1%R \/ sg = (-1)%R ->
+       (0 <= sg * ((x * x + y * y) / (2 * Rc) - z0))%R ->
        k_std_distance XOps (Fin (-1)) (Fin sg) (Fin 0) (Fin 0) (Fin z0) (Fin x) (Fin y) (Fin Rc) =
        Fin (sg * ((x * x + y * y) / (2 * Rc) - z0)).
 Proof. exact std_distance_paraboloid_axial. Qed.
